@@ -385,6 +385,9 @@ def sig_c01(f):
 
 def sig_c02(f):
     r = f["rule"]
+    if r == "generator-rejected":
+        # an input of the supported subset that is refused has none of the things this property promises for it
+        return f"C02|rejected|variant={f.get('variant')}"
     if r == "struct-missing":
         return f"C02|struct-missing|kind={f['kind']}"
     if r == "struct-duplicate":
@@ -1137,6 +1140,9 @@ def _origin(d):
 
 def sig_c05(f):
     r = f["rule"]
+    if r == "generator-rejected":
+        # an input of the supported subset that is refused has none of the things this property promises for it
+        return f"C05|rejected|variant={f.get('variant')}"
     if r in ("client-missing", "service-name", "address"):
         return f"C05|{r}"
     if r == "method-set":
@@ -1352,6 +1358,9 @@ def sig_c08(f):
 
 def sig_c09(f):
     r = f["rule"]
+    if r == "generator-rejected":
+        # an input of the supported subset that is refused has none of the things this property promises for it
+        return f"C09|rejected|variant={f.get('variant')}"
     if r == "member-type" and f.get("wrong_struct"):
         via = "ref" if f["kind"] == "ref" else "type"
         return f"C09|bound-to|got=other-struct|via={via}|target-in={'own-file' if f['target_file'] == f['decl_file'] else 'other-file'}"
